@@ -1,0 +1,368 @@
+/* ANSI-C code produced by gperf version 3.1 */
+/* Command-line: /usr/bin/gperf -L ANSI-C --output-file evical-gp.c evical-gp.erf  */
+/* Computed positions: -k'2-3,8,11,13' */
+
+#if !((' ' == 32) && ('!' == 33) && ('"' == 34) && ('#' == 35) \
+      && ('%' == 37) && ('&' == 38) && ('\'' == 39) && ('(' == 40) \
+      && (')' == 41) && ('*' == 42) && ('+' == 43) && (',' == 44) \
+      && ('-' == 45) && ('.' == 46) && ('/' == 47) && ('0' == 48) \
+      && ('1' == 49) && ('2' == 50) && ('3' == 51) && ('4' == 52) \
+      && ('5' == 53) && ('6' == 54) && ('7' == 55) && ('8' == 56) \
+      && ('9' == 57) && (':' == 58) && (';' == 59) && ('<' == 60) \
+      && ('=' == 61) && ('>' == 62) && ('?' == 63) && ('A' == 65) \
+      && ('B' == 66) && ('C' == 67) && ('D' == 68) && ('E' == 69) \
+      && ('F' == 70) && ('G' == 71) && ('H' == 72) && ('I' == 73) \
+      && ('J' == 74) && ('K' == 75) && ('L' == 76) && ('M' == 77) \
+      && ('N' == 78) && ('O' == 79) && ('P' == 80) && ('Q' == 81) \
+      && ('R' == 82) && ('S' == 83) && ('T' == 84) && ('U' == 85) \
+      && ('V' == 86) && ('W' == 87) && ('X' == 88) && ('Y' == 89) \
+      && ('Z' == 90) && ('[' == 91) && ('\\' == 92) && (']' == 93) \
+      && ('^' == 94) && ('_' == 95) && ('a' == 97) && ('b' == 98) \
+      && ('c' == 99) && ('d' == 100) && ('e' == 101) && ('f' == 102) \
+      && ('g' == 103) && ('h' == 104) && ('i' == 105) && ('j' == 106) \
+      && ('k' == 107) && ('l' == 108) && ('m' == 109) && ('n' == 110) \
+      && ('o' == 111) && ('p' == 112) && ('q' == 113) && ('r' == 114) \
+      && ('s' == 115) && ('t' == 116) && ('u' == 117) && ('v' == 118) \
+      && ('w' == 119) && ('x' == 120) && ('y' == 121) && ('z' == 122) \
+      && ('{' == 123) && ('|' == 124) && ('}' == 125) && ('~' == 126))
+/* The character set is not based on ISO-646.  */
+#error "gperf generated tables don't work with this execution character set. Please report a bug to <bug-gperf@gnu.org>."
+#endif
+
+#line 1 "evical-gp.erf"
+
+typedef enum {
+	FLD_UNK,
+	FLD_BEGIN,
+	FLD_END,
+	FLD_METH,
+	FLD_SCALE,
+	FLD_DTSTART,
+	FLD_DTEND,
+	FLD_DUE,
+	FLD_DURA,
+	FLD_COMPL,
+	FLD_RRULE,
+	FLD_XRULE,
+	FLD_RDATE,
+	FLD_XDATE,
+	FLD_UID,
+	FLD_SUMM,
+	FLD_DESC,
+	FLD_LOC,
+	FLD_SHELL,
+	FLD_STATE,
+	FLD_MRULE,
+	FLD_MFILE,
+	FLD_ATT,
+	FLD_ORG,
+	FLD_IFILE,
+	FLD_OFILE,
+	FLD_EFILE,
+	FLD_MOUT,
+	FLD_MERR,
+	FLD_MRUN,
+	FLD_MAX_SIMUL,
+	FLD_RSTAT,
+	FLD_RECURID,
+	FLD_OWNER,
+	FLD_UMASK,
+	FLD_SUID,
+	FLD_SGID,
+} ical_fld_t;
+
+#line 53 "evical-gp.erf"
+struct ical_fld_cell_s {
+	const char *fldstr;
+	ical_fld_t fld;
+};
+/* maximum key range = 71, duplicates = 0 */
+
+#ifdef __GNUC__
+__inline
+#else
+#ifdef __cplusplus
+inline
+#endif
+#endif
+static unsigned int
+__evical_fld_hash (register const char *str, register size_t len)
+{
+  static const unsigned char asso_values[] =
+    {
+      77, 77, 77, 77, 77, 77, 77, 77, 77, 77,
+      77, 77, 77, 77, 77, 77, 77, 77, 77, 77,
+      77, 77, 77, 77, 77, 77, 77, 77, 77, 77,
+      77, 77, 77, 77, 77, 77, 77, 77, 77, 77,
+      77, 77, 77, 77, 77,  0, 77, 77, 77, 77,
+      77, 77, 77, 77, 77, 77, 77, 77, 77, 77,
+      77, 77, 77, 77, 77, 50, 77, 10,  0, 10,
+      77, 10, 77, 25, 77, 77,  5,  0, 20,  0,
+      77,  0,  5, 35,  0,  0, 77, 77,  0, 77,
+      77, 77, 77, 77, 77, 77, 77, 77, 77, 77,
+      77, 77, 77, 77, 77, 77, 77, 77, 77, 77,
+      77, 77, 77, 77, 77, 77, 77, 77, 77, 77,
+      77, 77, 77, 77, 77, 77, 77, 77, 77, 77,
+      77, 77, 77, 77, 77, 77, 77, 77, 77, 77,
+      77, 77, 77, 77, 77, 77, 77, 77, 77, 77,
+      77, 77, 77, 77, 77, 77, 77, 77, 77, 77,
+      77, 77, 77, 77, 77, 77, 77, 77, 77, 77,
+      77, 77, 77, 77, 77, 77, 77, 77, 77, 77,
+      77, 77, 77, 77, 77, 77, 77, 77, 77, 77,
+      77, 77, 77, 77, 77, 77, 77, 77, 77, 77,
+      77, 77, 77, 77, 77, 77, 77, 77, 77, 77,
+      77, 77, 77, 77, 77, 77, 77, 77, 77, 77,
+      77, 77, 77, 77, 77, 77, 77, 77, 77, 77,
+      77, 77, 77, 77, 77, 77, 77, 77, 77, 77,
+      77, 77, 77, 77, 77, 77, 77, 77, 77, 77,
+      77, 77, 77, 77, 77, 77
+    };
+  register unsigned int hval = len;
+
+  switch (hval)
+    {
+      default:
+        hval += asso_values[(unsigned char)str[12]];
+      /*FALLTHROUGH*/
+      case 12:
+      case 11:
+        hval += asso_values[(unsigned char)str[10]];
+      /*FALLTHROUGH*/
+      case 10:
+      case 9:
+      case 8:
+        hval += asso_values[(unsigned char)str[7]];
+      /*FALLTHROUGH*/
+      case 7:
+      case 6:
+      case 5:
+      case 4:
+      case 3:
+        hval += asso_values[(unsigned char)str[2]];
+      /*FALLTHROUGH*/
+      case 2:
+        hval += asso_values[(unsigned char)str[1]];
+        break;
+    }
+  return hval;
+}
+
+const struct ical_fld_cell_s *
+__evical_fld (register const char *str, register size_t len)
+{
+  enum
+    {
+      TOTAL_KEYWORDS = 36,
+      MIN_WORD_LENGTH = 3,
+      MAX_WORD_LENGTH = 16,
+      MIN_HASH_VALUE = 6,
+      MAX_HASH_VALUE = 76
+    };
+
+  static const struct ical_fld_cell_s wordlist[] =
+    {
+#line 71 "evical-gp.erf"
+      {"EXDATE", FLD_XDATE},
+#line 73 "evical-gp.erf"
+      {"SUMMARY", FLD_SUMM},
+#line 68 "evical-gp.erf"
+      {"RRULE", FLD_RRULE},
+#line 70 "evical-gp.erf"
+      {"EXRULE", FLD_XRULE},
+#line 65 "evical-gp.erf"
+      {"DUE", FLD_DUE},
+#line 64 "evical-gp.erf"
+      {"DTEND", FLD_DTEND},
+#line 61 "evical-gp.erf"
+      {"METHOD", FLD_METH},
+#line 91 "evical-gp.erf"
+      {"ATTENDEE", FLD_ATT},
+#line 66 "evical-gp.erf"
+      {"COMPLETED", FLD_COMPL},
+#line 76 "evical-gp.erf"
+      {"X-GA-MRULE", FLD_MRULE},
+#line 60 "evical-gp.erf"
+      {"END", FLD_END},
+#line 59 "evical-gp.erf"
+      {"BEGIN", FLD_BEGIN},
+#line 81 "evical-gp.erf"
+      {"X-ECHS-OFILE", FLD_OFILE},
+#line 72 "evical-gp.erf"
+      {"UID", FLD_UID},
+#line 84 "evical-gp.erf"
+      {"X-ECHS-MAIL-OUT", FLD_MOUT},
+#line 78 "evical-gp.erf"
+      {"X-ECHS-OWNER", FLD_OWNER},
+#line 67 "evical-gp.erf"
+      {"DURATION", FLD_DURA},
+#line 92 "evical-gp.erf"
+      {"ORGANIZER", FLD_ORG},
+#line 83 "evical-gp.erf"
+      {"X-ECHS-MAIL-RUN", FLD_MRUN},
+#line 82 "evical-gp.erf"
+      {"X-ECHS-EFILE", FLD_EFILE},
+#line 90 "evical-gp.erf"
+      {"LOCATION", FLD_LOC},
+#line 85 "evical-gp.erf"
+      {"X-ECHS-MAIL-ERR", FLD_MERR},
+#line 63 "evical-gp.erf"
+      {"DTSTART", FLD_DTSTART},
+#line 77 "evical-gp.erf"
+      {"X-GA-MFILE", FLD_MFILE},
+#line 86 "evical-gp.erf"
+      {"X-ECHS-MAX-SIMUL", FLD_MAX_SIMUL},
+#line 80 "evical-gp.erf"
+      {"X-ECHS-IFILE", FLD_IFILE},
+#line 94 "evical-gp.erf"
+      {"RECURRENCE-ID", FLD_RECURID},
+#line 69 "evical-gp.erf"
+      {"RDATE", FLD_RDATE},
+#line 87 "evical-gp.erf"
+      {"X-ECHS-UMASK", FLD_UMASK},
+#line 88 "evical-gp.erf"
+      {"X-ECHS-SETUID", FLD_SUID},
+#line 79 "evical-gp.erf"
+      {"X-ECHS-SHELL", FLD_SHELL},
+#line 89 "evical-gp.erf"
+      {"X-ECHS-SETGID", FLD_SGID},
+#line 75 "evical-gp.erf"
+      {"X-GA-STATE", FLD_STATE},
+#line 62 "evical-gp.erf"
+      {"CALSCALE", FLD_SCALE},
+#line 93 "evical-gp.erf"
+      {"REQUEST-STATUS", FLD_RSTAT},
+#line 74 "evical-gp.erf"
+      {"DESCRIPTION", FLD_DESC}
+    };
+
+  if (len <= MAX_WORD_LENGTH && len >= MIN_WORD_LENGTH)
+    {
+      register unsigned int key = __evical_fld_hash (str, len);
+
+      if (key <= MAX_HASH_VALUE && key >= MIN_HASH_VALUE)
+        {
+          register const struct ical_fld_cell_s *resword;
+
+          switch (key - 6)
+            {
+              case 0:
+                resword = &wordlist[0];
+                goto compare;
+              case 1:
+                resword = &wordlist[1];
+                goto compare;
+              case 4:
+                resword = &wordlist[2];
+                goto compare;
+              case 5:
+                resword = &wordlist[3];
+                goto compare;
+              case 7:
+                resword = &wordlist[4];
+                goto compare;
+              case 9:
+                resword = &wordlist[5];
+                goto compare;
+              case 10:
+                resword = &wordlist[6];
+                goto compare;
+              case 12:
+                resword = &wordlist[7];
+                goto compare;
+              case 13:
+                resword = &wordlist[8];
+                goto compare;
+              case 14:
+                resword = &wordlist[9];
+                goto compare;
+              case 17:
+                resword = &wordlist[10];
+                goto compare;
+              case 19:
+                resword = &wordlist[11];
+                goto compare;
+              case 21:
+                resword = &wordlist[12];
+                goto compare;
+              case 22:
+                resword = &wordlist[13];
+                goto compare;
+              case 24:
+                resword = &wordlist[14];
+                goto compare;
+              case 26:
+                resword = &wordlist[15];
+                goto compare;
+              case 27:
+                resword = &wordlist[16];
+                goto compare;
+              case 28:
+                resword = &wordlist[17];
+                goto compare;
+              case 29:
+                resword = &wordlist[18];
+                goto compare;
+              case 31:
+                resword = &wordlist[19];
+                goto compare;
+              case 32:
+                resword = &wordlist[20];
+                goto compare;
+              case 34:
+                resword = &wordlist[21];
+                goto compare;
+              case 36:
+                resword = &wordlist[22];
+                goto compare;
+              case 39:
+                resword = &wordlist[23];
+                goto compare;
+              case 45:
+                resword = &wordlist[24];
+                goto compare;
+              case 46:
+                resword = &wordlist[25];
+                goto compare;
+              case 47:
+                resword = &wordlist[26];
+                goto compare;
+              case 49:
+                resword = &wordlist[27];
+                goto compare;
+              case 51:
+                resword = &wordlist[28];
+                goto compare;
+              case 52:
+                resword = &wordlist[29];
+                goto compare;
+              case 56:
+                resword = &wordlist[30];
+                goto compare;
+              case 62:
+                resword = &wordlist[31];
+                goto compare;
+              case 64:
+                resword = &wordlist[32];
+                goto compare;
+              case 67:
+                resword = &wordlist[33];
+                goto compare;
+              case 68:
+                resword = &wordlist[34];
+                goto compare;
+              case 70:
+                resword = &wordlist[35];
+                goto compare;
+            }
+          return 0;
+        compare:
+          {
+            register const char *s = resword->fldstr;
+
+            if (*str == *s && !strncmp (str + 1, s + 1, len - 1) && s[len] == '\0')
+              return resword;
+          }
+        }
+    }
+  return 0;
+}
